@@ -38,6 +38,18 @@ CLAIMS = {
    design_ref="DESIGN.md §4 C17",
    note="Trusted: Coq kernel; Dec model; enumeration harness. The enumeration is testing, not proof.",
    technique="Coq totality proof of dispatch skeleton + exhaustive per-spec enumeration of hook totality with keyed known findings"),
+ "C01": dict(
+   category="proof",
+   text="Coq theorems, all widths: every cst operator (add/sub/mul, and/or/xor, shifts by any amount incl. >= width and sign-flagged counts, eq/neq, unsigned and declared-signedness comparisons, widening multiply, unsigned div/mod, neg/not, slices, extensions) computes the reference fixed-width result (denote/ref_binop written from the property text); and eval_sound: for every well-sized covered tree (any shape) and every valuation, if evaluation yields a constant it is denote's value with the tree's width. Tie on every run: cst model vs cst class exhaustively for widths 1..3 (all sign-flag combinations, 22 operators) + random wide widths; eval model vs implementation (value, width, sign flag) and the implementation's built/simplified trees vs denote inside the Coq kernel; independent Python interpreter over recipes for search and shrinking. Simplifier rewrite rules are covered end to end (implementation result trees evaluated by denote), not rule by rule. Eleven genuine defects found by this check were repaired (fix: commits), two are listed as known findings.",
+   design_ref="DESIGN.md §4 C01",
+   note="Trusted: Coq kernel incl. vm_compute; harness/exptree.py (generator, dump walker, Python reference), harness/c01.py tree->Gallina translation. Outside the covered fragment: signed div/mod, rotations >= width, floats, mem/ptr, vec.",
+   technique="Coq proofs (cst operators, eval soundness vs reference semantics) + kernel-evaluated correspondence + differential testing with shrinking"),
+ "C12": dict(
+   category="proof",
+   text="Coq theorems: comp slice assignment (parts dict + cut) keeps an exact tiling of [0,size) for every assignment and every assignment sequence; evaluation returns exactly the tree's width; every constant operator returns the dictated width (operand / 1 / double). Tie: slice-assignment sequences on real comp objects vs the parts model (vm_compute, incl. part sources and offsets, smask consistency), widths and tilings of recipes through construction, simplify (plain, bitslice, widening) and eval under concrete, partial and symbolic environments with the complexity threshold off/small, under a memory limit.",
+   design_ref="DESIGN.md §4 C12",
+   note="Trusted: Coq kernel; harness/exptree.py walker; harness/c12.py. restruct's constant merging is checked by the tiling oracle only.",
+   technique="Coq invariant proof of comp tiling + width theorems + differential width/tiling oracle on every rewrite path"),
 }
 NOT_YET = {}
 def main():
